@@ -21,13 +21,13 @@ pub fn def() -> PropDef {
     PropDef {
         id: "C04",
         level: "translation_validation",
-        rule: "translate: generated multi-segment indexes (1-6 segments of 0-300 rich documents: multi-valued positional text, multi-valued string and i64 fast fields, optional f64, freq-only text, bytes payload; deletes hitting earlier and current segments; doc-store block size tiny or default so that stores are stacked or re-compressed; sorted by a u64 key asc/desc or unsorted) x a generated non-empty subset and order of segments passed to IndexWriter::merge. Every merge is validated as a translation: the canonical dump (stored fields, every fast value bit-exact, field-norm ids, per term tf and positions) of the merged segment's documents must be the sources' live documents, each source contiguous and in order (unsorted) or in sort order with the same multiset (sorted); dictionary doc_freq == number of live documents containing the term and > 0; untouched segments keep their dump; only-dead sources produce no segment. Non-trivial = a source has deleted documents, or >= 3 sources, or a source store with >= 6 blocks; distinct by hash(case). sched: the merge thread is held at a generated storage operation (SimDir gate) while the controller runs generated deletes + commits / rollback / delete-all / gc, then released; oracle = sequential model after every commit and at the end + no-orphan predicate.",
+        rule: "translate: generated multi-segment indexes (1-6 segments of 0-300 rich documents: multi-valued positional text, multi-valued string and i64 fast fields, optional f64, freq-only text, bytes payload; deletes hitting earlier and current segments; doc-store block size tiny or default so that stores are stacked or re-compressed; sorted by a u64 key asc/desc or unsorted) x a generated non-empty subset and order of segments passed to IndexWriter::merge. Every merge is validated as a translation: the canonical dump (stored fields, every fast value bit-exact, field-norm ids, per term tf and positions) of the merged segment's documents must be the sources' live documents, each source contiguous and in order (unsorted) or in sort order with the same multiset (sorted); dictionary doc_freq == number of live documents containing the term and > 0; untouched segments keep their dump; only-dead sources produce no segment. Non-trivial = a source has deleted documents, or >= 3 sources, or a source store with >= 6 blocks; distinct by hash(case). sched: the merge thread is held at a generated storage operation (SimDir gate) while the controller runs generated deletes + commits / rollback / delete-all / gc, then released; oracle = sequential model after every commit and at the end + no-orphan predicate. policy_hist: generated histories (adds, deletes by uid / group / range, commits, aborts, rollbacks, writer restarts) under a merge policy that fires all the time on committed and uncommitted segments (2-3 segments per merge, a segment cut every 1-2 documents, 1-4 threads); the sequential model must hold after every commit, abort, rollback and restart.",
         assumptions: vec![
             "total_num_tokens is excluded (documented as an estimate after deletes)",
             "pre-emption points of the merge thread are storage operations (SimDir gates), not arbitrary instructions",
             "any concatenation order of the sources is accepted for an unsorted index (each source contiguous and internally ordered)",
         ],
-        subs: vec![Box::new(Translate), Box::new(Sched)],
+        subs: vec![Box::new(Translate), Box::new(Sched), Box::new(PolicyHist)],
     }
 }
 
@@ -403,6 +403,80 @@ impl Sub for Sched {
             cx.nontrivial(fp(c));
         }
         cx.sample(|| json!({"sub":"sched","cfg":c.cfg,"prefix":c.prefix.len(),"gate":[c.gate_kind,c.gate_nth],"during":c.during,"suffix":c.suffix.len(),"gate_reached":reached}));
+        Ok(())
+    }
+}
+
+// ------------------------------------------------------------------------------------------------
+/// Policy-driven merges while the history proceeds: C02's interpreter and sequential model, with configurations in which
+/// the merge policy fires all the time on committed *and* uncommitted segments (tiny layers, 2-3 segments per merge,
+/// a segment cut every 1-2 documents, 1-4 indexing threads) and histories rich in deletes between merges, rollbacks,
+/// aborts and writer restarts.  A policy merge must never change what the model says: not at the next commit (deletes
+/// pending in the source entries or held in memory must end up in the merged segment) and not before it (a merge of
+/// committed segments published by end_merge must not contain uncommitted deletes: rollback / reopen must bring back
+/// exactly the last commit).
+pub struct PolicyHist;
+impl Sub for PolicyHist {
+    type Case = super::c02::SeqCase;
+    fn name(&self) -> &'static str {
+        "policy_hist"
+    }
+    fn cases(&self, tier: Tier) -> u32 {
+        tier.pick(900, 12000)
+    }
+    fn max_shrink_iters(&self) -> u32 {
+        800
+    }
+    fn strategy(&self, _tier: Tier) -> BoxedStrategy<super::c02::SeqCase> {
+        use crate::hist::*;
+        static DIRS: [DirKind; 3] = [DirKind::Ram, DirKind::Ram, DirKind::Sim];
+        let op = prop_oneof![
+            20 => add_strategy().prop_map(Op::Add),
+            6 => any::<u16>().prop_map(Op::DelUid),
+            3 => (0..NUM_GROUPS).prop_map(Op::DelGroup),
+            2 => (-20i16..20, 0i16..8).prop_map(|(lo, w)| Op::DelRange(lo, lo + w)),
+            8 => Just(Op::Commit),
+            2 => Just(Op::PrepareCommit),
+            2 => Just(Op::PrepareAbort),
+            3 => Just(Op::Rollback),
+            1 => any::<u16>().prop_map(Op::Merge),
+            2 => Just(Op::WaitMerges),
+            2 => Just(Op::Reopen),
+            1 => Just(Op::Gc),
+        ];
+        (cfg_strategy(&DIRS), 2u8..4, 1u16..3, prop::collection::vec(op, 4..60))
+            .prop_map(|(mut cfg, n, flush, ops)| {
+                cfg.policy = Policy::LogSmall(n);
+                cfg.flush_every = flush;
+                cfg.threads = cfg.threads.min(4);
+                super::c02::SeqCase { cfg, ops }
+            })
+            .boxed()
+    }
+    fn mandatory_labels(&self, _t: Tier) -> Vec<&'static str> {
+        vec!["same_txn_delete_hit", "rollback_with_work", "abort_with_work", "threads>=2", "segments>=3", "reopen", "commits>=3"]
+    }
+    fn run(&self, c: &super::c02::SeqCase, cx: &Ctx) -> CaseResult {
+        let mut env = crate::hist::Env::new(c.cfg.clone())?;
+        env.check_quiescence = false;
+        for op in &c.ops {
+            env.apply(op, cx)?;
+        }
+        env.finish(cx)?;
+        let st = &env.stats;
+        cx.label_if(st.same_txn_delete_hits > 0, "same_txn_delete_hit");
+        cx.label_if(st.rollbacks_with_work > 0, "rollback_with_work");
+        cx.label_if(st.aborts_with_work > 0, "abort_with_work");
+        cx.label_if(c.cfg.threads >= 2, "threads>=2");
+        cx.label_if(st.max_segments >= 3, "segments>=3");
+        cx.label_if(st.reopen > 0, "reopen");
+        cx.label_if(st.commits >= 3, "commits>=3");
+        cx.count("programs", 1);
+        cx.count("commits_verified", st.commits as u64);
+        if st.commits >= 2 && (st.same_txn_delete_hits > 0 || st.rollbacks_with_work > 0 || st.aborts_with_work > 0) {
+            cx.nontrivial(fp(c));
+        }
+        cx.sample(|| json!({"sub": "policy_hist", "cfg": c.cfg, "ops": c.ops.len()}));
         Ok(())
     }
 }
